@@ -2,6 +2,7 @@
 //! inputs and prints everything observable to a `.cases` file for comparison with the Coq model.
 mod common;
 mod gen;
+mod satobj;
 mod statics;
 mod store;
 
@@ -58,6 +59,10 @@ fn main() {
     match mode.as_str() {
         "store" => store::run(&mut rng, count, thorough, &mut out),
         "static" => statics::run(&mut rng, count, thorough, &statics::Cfg::from_extra(&extra, 1), &mut out),
+        "satobj" => satobj::run_satobj(&mut rng, count, thorough, &extra, &mut out),
+        "dimacs" => satobj::run_dimacs(&mut rng, count, thorough, &extra, &mut out),
+        "reply" => satobj::run_reply(&mut rng, count, thorough, &extra, &mut out),
+        "pipe" => satobj::run_pipe(&mut rng, count, thorough, &extra, &mut out),
         "static-multi" => statics::run(&mut rng, count, thorough, &statics::Cfg::from_extra(&extra, 3), &mut out),
         _ => {
             eprintln!("unknown mode {}", mode);
